@@ -150,6 +150,9 @@ def gen_lines(rng, cv, count, outside):
         for cs in todo + [tuple(rng.choice([0, 0, 1, -1, rng.below(1 << 20), -rng.below(1 << 62)]) for _ in range(4))]:
             kk = sum(c * pow(L, i, cv.n) for i, c in enumerate(cs)) % cv.n
             out.append("e2m %s %d %s %s" % (v, rng.below(2), ptok(rng, cv, rng.choice(pool + [cv.g]), "" if v.startswith("fix") else "P"), hx(kk)))
+    # long lists for ep2_mul_sim_lot (the bucket method widens its window at 32 and 64 points): compact form
+    for n_ in ((11, 31, 32, 33) if count < 1000 else (11, 16, 31, 32, 33, 40, 64)):
+        out.append("e2lc %d %s %x %x" % (n_, ptok(rng, cv, rng.choice(pool), ""), rng.bits(256) % cv.n, rng.bits(256) % cv.n))
     # two-point simultaneous multiplication with the result object being the first / second point operand, every variant
     for v in SIM:
         for al in (".p", ".q"):
